@@ -31,6 +31,8 @@ pub fn scripts() -> Vec<(String, Script)> {
         ("f10-unsuback-8f", r#"{"cfg":{},"steps":[{"a":"Open"},{"a":"Drain"},{"a":"Connack"},{"a":"Submit","kind":"unsub"},{"a":"Drain"},{"a":"Raw","hex":"b0040001008f","legal":true,"name":"UNSUBACK"},{"a":"Reset"}]}"#),
         // #17 C11/C01: a packet whose trailing encoding steps are empty finishes in a service call that appends nothing
         ("f17-zero-byte-completion-connect", r#"{"cfg":{"faithful":true,"cap":7,"cid":"","ack_delay":50,"tam_in":1,"sei":0},"steps":[{"a":"Open"},{"a":"Run","ms":100},{"a":"Close"},{"a":"Open"},{"a":"Run","ms":100},{"a":"Quiesce"},{"a":"Reset"}]}"#),
+        // known finding C11 late-ack-after-timeout: the broker answers after the client gave up on the operation
+        ("k01-late-ack-after-ack-timeout", r#"{"cfg":{},"steps":[{"a":"Open"},{"a":"Drain"},{"a":"Connack"},{"a":"Submit","kind":"sub","tmo":100},{"a":"Drain"},{"a":"Advance","ms":150},{"a":"Service","cap":4096},{"a":"Ack"},{"a":"Reset"}]}"#),
         // #13 C14: keep alive of one second: K/2 computed in whole seconds
         ("f13-keep-alive-one-second", r#"{"cfg":{"faithful":true,"ka":1,"ping_tmo":30000,"ack_delay":100},"steps":[{"a":"Open"},{"a":"Run","ms":3500},{"a":"Quiesce"},{"a":"Reset"}]}"#),
     ];
